@@ -5,6 +5,7 @@ pub mod c02;
 pub mod c03;
 pub mod c04;
 pub mod c05;
+pub mod c06;
 pub mod c07;
 pub mod c08;
 pub mod c09;
@@ -17,7 +18,7 @@ pub mod c18;
 pub mod c20;
 
 pub fn all() -> Vec<MonitorDef> {
-	vec![c01::def(), c02::def(), c03::def(), c04::def(), c05::def(), c07::def(), c08::def(), c09::def(), c12::def(), c13::def(), c14::def(), c15::def(), c16::def(), c18::def(), c20::def()]
+	vec![c01::def(), c02::def(), c03::def(), c04::def(), c05::def(), c06::def(), c07::def(), c08::def(), c09::def(), c12::def(), c13::def(), c14::def(), c15::def(), c16::def(), c18::def(), c20::def()]
 }
 
 /// non-property sub-commands (helpers used by the driver); none yet
